@@ -172,6 +172,18 @@ let spec_main () =
            match c with
            | 'f' -> let (e, s) = ext_next p !st in st := s; outs := (match e with Some e -> pe e | None -> "~") :: !outs
            | 'b' -> let (e, s) = ext_next_back p !st in st := s; outs := (match e with Some e -> pe e | None -> "~") :: !outs
+           | 'd' ->
+             let continue = ref true in
+             while !continue do
+               let (e, s) = ext_next p !st in st := s;
+               (match e with Some e -> outs := pe e :: !outs | None -> continue := false)
+             done
+           | 'D' ->
+             let continue = ref true in
+             while !continue do
+               let (e, s) = ext_next_back p !st in st := s;
+               (match e with Some e -> outs := pe e :: !outs | None -> continue := false)
+             done
            | _ -> ()) toks.(5);
          w := ext_finish !st;
          Printf.printf "X %s\n" (plist (List.rev !outs))
@@ -262,6 +274,7 @@ let shape_main verbose =
         (let (l, b, h) = count_nodes c0 in (l, b + 1, h + 1)) rest in
   let dims () = match !w.sb_root with None -> (0, 0, 0) | Some t -> count_nodes t in
   let mark_del k = List.iter (fun c -> mark (del_name (int_of_n c))) (s_delete_tag_list key_cmp key_size val_size !fk !fv !ps !sep !w k) in
+  let abs_of (st : (key, bytes) sbtree) = abs_tree (erase_tree st) in
   let s_ins k v =
     mark ins_names.(int_of_n (s_insert_tag key_cmp key_size val_size !fk !fv !ps !w k v));
     let (_, b0, h0) = dims () in
@@ -306,6 +319,54 @@ let shape_main verbose =
          (match tlast (erase_tree !w) with Some (k, _) -> mark_del k | None -> mark "pop:empty");
          let (w', e) = s_pop_last key_cmp key_size val_size !fk !fv !ps !sep !w in
          w := w'; Printf.printf "PL %s\n" (poe e); emit ()
+       | "R" | "M" | "EO" | "EM" | "EI" | "ER" | "EE" | "EG" ->
+         let k = key 1 in
+         let vals = List.filter_map (fun i -> if i < Array.length toks && toks.(i) <> "_" then Some (value i) else None) [2; 3] in
+         let v1 () = List.nth vals 0 and v2 () = List.nth vals 1 in
+         let present = get key_cmp (abs_of !w) k in
+         let (g, first_insert) = match toks.(0) with
+           | "R" -> (GReserve (k, v1 ()), Some (blank_bytes (v1 ())))
+           | "M" -> (GGetMut (k, vals), None)
+           | "EO" -> (GEntryOrInsert (k, v1 ()), (if present = None then Some (v1 ()) else None))
+           | "EM" -> (GEntryModify (k, v1 (), v2 ()), (if present = None then Some (v2 ()) else None))
+           | "EI" -> (GEntryInsert (k, v1 ()), Some (v1 ()))
+           | "ER" -> (GEntryRemove k, None)
+           | "EE" -> (GEntryRemoveEntry k, None)
+           | _ -> (GEntryGet k, None) in
+         mark ("guard-op:" ^ toks.(0) ^ (if present = None then ":absent" else ":present"));
+         (match first_insert with
+          | Some v -> mark ins_names.(int_of_n (s_insert_tag key_cmp key_size val_size !fk !fv !ps !w k v))
+          | None -> if toks.(0) = "ER" || toks.(0) = "EE" then mark_del k);
+         (* which path the guard writes of this operation take, and on a tree of which height *)
+         (let height = (let (_, _, h) = dims () in h) in
+          let tag st v = mark ((match int_of_n (s_guard_tag key_cmp key_size val_size !fk !fv !ps st k v) with
+              | 1 -> "guard-write:in-place" | 2 -> "guard-write:leaf-rebuilt" | 3 -> "guard-write:leaf-rebuilt-multi-entry-over-one-page" | _ -> "guard-write:absent")
+              ^ (if height >= 1 then ":height>=1" else ":root-leaf")) in
+          match toks.(0), present with
+          | "M", Some _ ->
+            ignore (List.fold_left (fun st v -> tag st v; fst (s_guard_set key_cmp key_size val_size !fk !fv !ps st k v))
+                      (s_get_mut key_cmp !w k) vals)
+          | "EM", Some _ -> tag (s_get_mut key_cmp !w k) (v1 ())
+          | _ -> ());
+         let oracle = match first_insert with
+           | Some v -> s_oracle key_cmp key_size val_size !fk !fv !ps !w k v
+           | None -> (fun _ _ _ -> false) in
+         let (_, m') = m_apply_gop !fk !fv !ps !sep oracle blank_bytes (erase_tree !w) g in
+         let (out, w') = s_apply_gop key_cmp key_size val_size !fk !fv !ps !sep blank_bytes !w g in
+         w := w'; check_erasure ("guard op " ^ toks.(0)) m';
+         let old = match out with OVal o -> o | OEntry (Some (_, v)) -> Some v | _ -> None in
+         (match toks.(0) with
+          | "R" -> print_endline "R ok"
+          | "M" -> (match old with
+                    | None -> print_endline "M none"
+                    | Some o -> print_endline (String.concat " " (("M " ^ pv o) :: List.map pv vals)))
+          | "EO" -> Printf.printf "EO %s\n" (match old with Some o -> pv o | None -> pv (v1 ()))
+          | "EM" -> Printf.printf "EM %s\n" (match old with Some _ -> pv (v1 ()) | None -> pv (v2 ()))
+          | "EI" -> (match old with Some o -> Printf.printf "EI occ %s\n" (pv o) | None -> Printf.printf "EI vac %s\n" (pv (v1 ())))
+          | "ER" -> (match old with Some o -> Printf.printf "ER occ %s\n" (pv o) | None -> print_endline "ER vac")
+          | "EE" -> (match old with Some o -> Printf.printf "EE occ %s\n" (pe (k, o)) | None -> print_endline "EE vac")
+          | _ -> (match old with Some o -> Printf.printf "EG occ %s\n" (pv o) | None -> print_endline "EG vac"));
+         emit ()
        | "" -> ()
        | _ -> print_endline "UNMODELLED"; emit ())
     done
